@@ -160,7 +160,9 @@ def frame(template, snap, kind, pos, two_site, local_shape, sym=True):
     T = [t.copy() for t in snap["tensors"]]
     n = int(np.prod(local_shape))
     cols = []
+    from vk.symx.harness import budget_check
     for j in range(n):
+        budget_check()
         e = unit_vec(n, j, sym).reshape(local_shape)
         cols.append(dense_of(template, place(T, kind, pos, two_site, e, sym), snap["coeff"]))
     return np.array(cols, dtype=object if sym else complex).T
@@ -317,7 +319,7 @@ def _starts(name, n, seed, tier, density_operators):
     p0 = U.make_state(model, q, 1, rng)        # product state: every interior bond has dimension one (1x1 bond problems)
     if p0 is not None:
         starts.append(("product state", p0))
-    if density_operators and name == "spinqn" and (n <= 3 or tier != "quick"):      # (the dense space of a density operator is the square of the state's)
+    if density_operators and name == "spinqn" and n <= 3:      # (the dense space of a density operator is the square of the state's)
         from renormalizer.mps import MpDm
         starts.append(("density operator", MpDm.from_mps(a0)))      # four-index site tensors: H acts on the physical index, the ancilla is a spectator
     return H, starts
